@@ -3,12 +3,18 @@
    Qcow2Dev::rb_slice_key_of_rt_off / l2_slice_key_of_l1_off.  Over the REGENERATED functions: the window
    [key(8 idx), key(8 (idx+1))) contains the slice key of every host cluster covered by refcount-table entry idx
    (resp. every guest offset under L1 entry idx), so no dirty slice under a dirty top-table entry is skipped.
-   That flush + reopen preserves every byte for whole histories is explored (checks/c02.py), not proved. *)
+   Second part, over the content-carrying write-back model (Model/Flush.v: cst/cstep, hand written, sequential): after ANY
+   sequence of updates, flushes and eviction write-backs (each possibly failing) that ends in a successful flush_meta,
+   the file holds for every slice exactly what the running device reads, and that is the flat reference (initial
+   content overlaid with the updates in order): the file alone determines the content.  Its tie to the code is the
+   dirty-counter hook (flag false / Ok flush => no dirty slice) plus the reopen sweep of checks/c02.py.
+   That flush + reopen preserves every byte for whole histories of the real library is explored, not proved. *)
 From Coq Require Import NArith List Bool.
 From Q.Base Require Import RExpr.
 From Q.Model Require Import Codec.
 From Q.Gen Require Import GenCodec.
-From Q.Proofs Require Import Geometry GenEq GeqMore.
+From Q.Model Require Import Flush.
+From Q.Proofs Require Import Geometry GenEq GeqMore FlushProps.
 From Q.Exec Require Import C13Exec.
 Import ListNotations.
 Open Scope N_scope.
@@ -56,5 +62,30 @@ Proof.
   exact (l2_key_window i idx g R B1 B E).
 Qed.
 
+Theorem C02_flushed_file_is_the_reference : forall f ops k,
+  file (crun_ (cinit f) (ops ++ [CFlushOk])) k = cref f ops k /\
+  mem (crun_ (cinit f) (ops ++ [CFlushOk])) k = cref f ops k.
+Proof. exact flush_ok_file_is_reference. Qed.
+
+Theorem C02_flag_false_file_is_the_reference : forall f ops k,
+  cflag (crun_ (cinit f) ops) = false -> file (crun_ (cinit f) ops) k = cref f ops k.
+Proof. exact cflag_false_file_is_reference. Qed.
+
+Theorem C02_only_updates_change_the_running_view : forall ops s, mem (crun_ s ops) = cref (mem s) ops.
+Proof. exact crun_mem. Qed.
+
+(* non-vacuity: a history with a failed eviction, a partly failed flush, a re-dirtied slice and an eviction that
+   succeeds; before the closing flush the file is behind, after it file = running view = reference *)
+Example C02_nonvacuous :
+  let ops := [CUpdate 3 7; CUpdate 5 9; CEvictFail 3; CFlushFail [5]; CUpdate 5 11; CEvictOk 5; CUpdate 3 8] in
+  let s := crun_ (cinit (fun _ => 0)) ops in
+  let t := crun_ (cinit (fun _ => 0)) (ops ++ [CFlushOk]) in
+  (file s 3 = 0 /\ mem s 3 = 8 /\ file s 5 = 11 /\ cflag s = true) /\
+  (file t 3 = 8 /\ file t 5 = 11 /\ file t 4 = 0 /\ cflag t = false).
+Proof. vm_compute. repeat split; reflexivity. Qed.
+
 Print Assumptions C02_rb_flush_window.
 Print Assumptions C02_l2_flush_window.
+Print Assumptions C02_flushed_file_is_the_reference.
+Print Assumptions C02_flag_false_file_is_the_reference.
+Print Assumptions C02_only_updates_change_the_running_view.
